@@ -753,18 +753,23 @@ func c20Ops() []immOp {
 	})
 	add("V4=SetValFromValueSet(S0)", "", true, func(st *immState) (cty.Value, bool) {
 		return guard(func() cty.Value {
-			if st.S[0].Length() == 0 {
-				return cty.SetValEmpty(cty.Number)
-			}
 			return cty.SetValFromValueSet(st.S[0])
 		})
 	})
 	add("V4=SetValFromValueSet(S1)", "", true, func(st *immState) (cty.Value, bool) {
 		return guard(func() cty.Value {
-			if st.S[1].Length() == 0 {
-				return cty.SetValEmpty(capsTypes[0])
-			}
 			return cty.SetValFromValueSet(st.S[1])
+		})
+	})
+	// copies taken while the set is empty (an empty set has no bucket to copy)
+	add("S0=NewValueSet(number) (empty)", "", false, func(st *immState) (cty.Value, bool) {
+		return guard(func() cty.Value { st.S[0] = cty.NewValueSet(cty.Number); return cty.NilVal })
+	})
+	add("S0=V(empty set).AsValueSet()", "", false, func(st *immState) (cty.Value, bool) {
+		return guard(func() cty.Value {
+			e := cty.SetValEmpty(cty.Number)
+			st.S[0] = e.AsValueSet()
+			return e
 		})
 	})
 	add("S0=V2.AsValueSet()", "", false, func(st *immState) (cty.Value, bool) {
